@@ -193,61 +193,47 @@ def _strsym(node, env):
 
 
 def hexlayout(ctx):
-    from ..dispatch import Facts, walk
-    from ..algebra import Alg
+    """Color.parse_color_hex followed for one marker string per accepted length (digits 1..8 are all distinct, so the layout of the
+    string handed to int(.., 16) identifies where every input digit ends up).  Only these literals are combined; nothing of the
+    module is executed."""
+    from ..pe import PE, K, Raised
 
     fn = ctx.fn("Color.parse_color_hex", "R13.2")
     param = fn.args.args[0].arg
-    # the digit string variable: h = hex_string.lstrip("#"); size = len(h)
-    hvar = sizevar = None
-    for s in fn.body:
-        if isinstance(s, ast.Assign) and isinstance(s.targets[0], ast.Name):
-            if isinstance(s.value, ast.Call) and isinstance(s.value.func, ast.Attribute) and s.value.func.attr in ("lstrip", "strip", "removeprefix") \
-                    and isinstance(s.value.func.value, ast.Name) and s.value.func.value.id == param:
-                hvar = s.targets[0].id
-            if isinstance(s.value, ast.Call) and isinstance(s.value.func, ast.Name) and s.value.func.id == "len" and hvar and \
-                    isinstance(s.value.args[0], ast.Name) and s.value.args[0].id == hvar:
-                sizevar = s.targets[0].id
-    ctx.need(hvar and sizevar, "R13.2", "parse_color_hex: digit string / size variables not found")
+    body = [x for x in fn.body if not (isinstance(x, ast.Expr) and isinstance(x.value, ast.Constant))]
     expected = {
-        8: lambda d: d[:8],
-        6: lambda d: d[:6] + ["F", "F"],
-        4: lambda d: [d[0], d[0], d[1], d[1], d[2], d[2], d[3], d[3]],
-        3: lambda d: [d[0], d[0], d[1], d[1], d[2], d[2], "F", "F"],
+        8: lambda d: d,
+        6: lambda d: d + "FF",
+        4: lambda d: "".join(c + c for c in d),
+        3: lambda d: "".join(c + c for c in d) + "FF",
     }
     for n, exp in expected.items():
-        digits = [("d", i) for i in range(n)]
-        facts = Facts(strs={sizevar: n})
-        # collect local string temporaries along the selected branch
-        out = walk(fn.body, facts, Alg(), ctx.m, "R13.2", "parse_color_hex[%d]" % n)
+        digits = "12345678"[:n]
         cons = "Color.parse_color_hex[%d digits]" % n
-        if out.kind != "return":
-            ctx.ob("R13.2", cons, False, out.kind, fn.lineno, "no value for this length")
-            continue
-        env = {hvar: digits}
-        # temporaries assigned in the same branch body
-        branch_body = _enclosing_body(fn, out.stmt)
-        for s in branch_body:
-            if s is out.stmt:
-                break
-            if isinstance(s, ast.Assign) and isinstance(s.targets[0], ast.Name):
-                try:
-                    env[s.targets[0].id] = _strsym(s.value, env)
-                except (B.Unknown, ValueError, IndexError):
-                    pass
-        val = out.node
-        if isinstance(val, ast.Name) and isinstance(_find_assign(branch_body, val.id), ast.Call):
-            val = _find_assign(branch_body, val.id)
-        if not (isinstance(val, ast.Call) and isinstance(val.func, ast.Name) and val.func.id == "int" and len(val.args) == 2):
-            raise AnalysisError("R13.2", "%s: result is not int(<digits>, 16): %s" % (cons, ast.unparse(val)))
-        radix = ast.literal_eval(val.args[1])
+
+        def hook(pe, call):
+            if isinstance(call.func, ast.Name) and call.func.id == "int" and len(call.args) == 2:
+                sv, rv = pe.ev(call.args[0]), pe.ev(call.args[1])
+                if isinstance(sv, K) and isinstance(sv.v, str) and hasattr(rv, "is_const") and rv.is_const():
+                    return K(("int", sv.v, int(rv.constval())))
+            return None
+
+        pe = PE(ctx.m, "R13.2", cons, call_hook=hook)
+        pe.bind(param, K("#" + digits))
         try:
-            got = _strsym(val.args[0], env)
-        except (B.Unknown, ValueError, IndexError) as e:
-            raise AnalysisError("R13.2", "%s: %s" % (cons, e))
-        got_n = [c.upper() if isinstance(c, str) else c for c in got]
-        ctx.ob("R13.2", cons, got_n == exp(digits) and radix == 16,
-               "digits %s radix %s; expected %s radix 16" % (_fmt(got_n), radix, _fmt(exp(digits))), out.stmt.lineno,
+            res = pe.run(body)
+        except Raised as e:
+            ctx.ob("R13.2", cons, False, "raises %s" % e.name, fn.lineno, "no value for this length")
+            continue
+        if res is None or res.kind != "return" or res.value is None:
+            ctx.ob("R13.2", cons, False, "no value returned", fn.lineno, "no value for this length")
+            continue
+        val = pe.ev(res.value)
+        if not (isinstance(val, K) and isinstance(val.v, tuple) and val.v and val.v[0] == "int"):
+            raise AnalysisError("R13.2", "%s: result is not int(<digits>, 16): %s" % (cons, ast.unparse(res.value)[:60]))
+        _, got, radix = val.v
+        ctx.ob("R13.2", cons, got.upper() == exp(digits).upper() and radix == 16,
+               "digits %s radix %s; expected %s radix 16 (input digits 1..%d)" % (got, radix, exp(digits), n), res.node.lineno,
                "hex digits are laid out differently from #rgb/#rgba/#rrggbb/#rrggbbaa")
 
 
@@ -460,22 +446,25 @@ def layout(ctx):
 
 
 def rgb_to_int_layout(ctx):
+    from ..flow import Taint
+
     fn = ctx.fn("Color.rgb_to_int", "R13.3")
     params = [a.arg for a in fn.args.args]
+    roles = dict(zip(params[:4], ("red", "green", "blue", "alpha")))
+    taint = {p_: Taint(fn, lambda n, p_=p_: isinstance(n, ast.Name) and n.id == p_, through_containers=False) for p_ in roles}
+
+    def role(name):
+        hit = [roles[p_] for p_, t in taint.items() if name == p_ or name in t.names]
+        return hit[0] if len(hit) == 1 else None
+
     shifts = {}
-    names = {params[0]: "red", params[1]: "green", params[2]: "blue"}
-    # the alpha local: a = int(round(opacity * 255.0))
-    for s in fn.body:
-        if isinstance(s, ast.Assign) and isinstance(s.targets[0], ast.Name) and any(isinstance(n, ast.Name) and n.id == params[3] for n in ast.walk(s.value)):
-            if s.targets[0].id != params[3]:
-                names[s.targets[0].id] = "alpha"
-    for s in fn.body:
-        if isinstance(s, ast.AugAssign) and isinstance(s.op, ast.LShift) and isinstance(s.target, ast.Name) and s.target.id in names:
-            shifts[names[s.target.id]] = shifts.get(names[s.target.id], 0) + ast.literal_eval(s.value)
+    for x in fn.body:
+        if isinstance(x, ast.AugAssign) and isinstance(x.op, ast.LShift) and isinstance(x.target, ast.Name) and role(x.target.id):
+            shifts[role(x.target.id)] = shifts.get(role(x.target.id), 0) + ast.literal_eval(x.value)
     combined = None
-    for s in fn.body:
-        if isinstance(s, (ast.Assign, ast.Return)) and isinstance(s.value, ast.BinOp) and isinstance(s.value.op, ast.BitOr):
-            combined = s.value
+    for x in fn.body:
+        if isinstance(x, (ast.Assign, ast.Return)) and isinstance(x.value, ast.BinOp) and isinstance(x.value.op, ast.BitOr):
+            combined = x.value
     ctx.need(combined is not None, "R13.3", "rgb_to_int: combining or-expression not found")
 
     def terms(n):
@@ -484,10 +473,10 @@ def rgb_to_int_layout(ctx):
         return [n]
 
     for t in terms(combined):
-        if isinstance(t, ast.Name) and t.id in names:
-            shifts.setdefault(names[t.id], 0)
-        elif isinstance(t, ast.BinOp) and isinstance(t.op, ast.LShift) and isinstance(t.left, ast.Name) and t.left.id in names:
-            shifts[names[t.left.id]] = shifts.get(names[t.left.id], 0) + ast.literal_eval(t.right)
+        if isinstance(t, ast.Name) and role(t.id):
+            shifts.setdefault(role(t.id), 0)
+        elif isinstance(t, ast.BinOp) and isinstance(t.op, ast.LShift) and isinstance(t.left, ast.Name) and role(t.left.id):
+            shifts[role(t.left.id)] = shifts.get(role(t.left.id), 0) + ast.literal_eval(t.right)
         else:
             raise AnalysisError("R13.3", "rgb_to_int: term %s not interpreted" % ast.unparse(t))
     return shifts
@@ -755,9 +744,12 @@ def clamps(ctx):
     for s in fn.body:
         if isinstance(s, ast.Assign) and any(isinstance(n, ast.Name) and n.id == op for n in ast.walk(s.value)) and not (isinstance(s.targets[0], ast.Name) and s.targets[0].id == op):
             inner = s.value
-            while isinstance(inner, ast.Call) and isinstance(inner.func, ast.Name) and inner.func.id in ("int", "round"):
+            while isinstance(inner, ast.Call) and len(inner.args) == 1 and ((isinstance(inner.func, ast.Name) and inner.func.id in ("int", "round")) or call_name(inner) == "Color.crimp"):
                 inner = inner.args[0]
-            scale = Alg().ev(inner)
+            try:
+                scale = Alg().ev(inner)
+            except Exception as e:
+                raise AnalysisError("R13.7", "rgb_to_int: alpha scaling expression not interpreted: %s" % ast.unparse(s.value)[:60])
             rounded = "round" in ast.unparse(s.value)
             ctx.ob("R13.7", "Color.rgb_to_int[alpha scale]", scale == ref("255*%s" % op) and rounded, "%s rounded=%s" % (scale, rounded), s.lineno,
                    "alpha byte is round(opacity*255)")
